@@ -64,17 +64,14 @@ def eval_term(P, t, bits_canon, bits, mode):
     raise fold.Unsupported("term %s" % canon(t)[:120])
 
 
-def run(chk, ctx):
-    P = Prog(ctx["facts"])
-    chk.explanation = ("C07 is decided exactly, because its width dimension is finite (1..=64) and the value enters through one BitAnd: WHO (every site in the row generators that builds InputValue::Value / ExpectedValue::Value from an entry), "
-                       "ORG (the built value is payload & m in either operand order, and the width feeding m is the `bits` of the very signal stored in the entry), FOLD (the backward slice of m — a helper function or an inline term — is folded for every bits in 1..=64 "
-                       "under both overflow-check modes: no Assert fails and m == 2^bits - 1 as a 64-bit pattern, i.e. -1 for 64; since n & (2^b - 1) is reduction modulo 2^b in two's complement this decides the numeric clause for every 64-bit n), "
-                       "TAB (Z and X pass through), const (virtual signals are built with bits: 64).")
-    chk.trusted = ["rustc MIR; two's-complement identity n & (2^b - 1) == n mod 2^b"]
+def mask_rules(chk, P, which_list=("input", "expected"), only_widths=None):
+    """WHO / ORG / FOLD rules of the masking (shared with C14, which needs the expected path at width 64)."""
     cases = 0
     sites = 0
     covered = {}
     for which, fn, adt in (("input", TD + "generate_input_entries", "value::InputValue::Value"), ("expected", TD + "generate_expected_entries", "value::ExpectedValue::Value")):
+        if which not in which_list:
+            continue
         cl = P.body(fn + "::{closure#0}")
         if not chk.anchor(fn + " closure", cl):
             continue
@@ -121,6 +118,8 @@ def run(chk, ctx):
             CMP = {"Lt": lambda a, b: a < b, "Le": lambda a, b: a <= b, "Gt": lambda a, b: a > b, "Ge": lambda a, b: a >= b, "Eq": lambda a, b: a == b, "Ne": lambda a, b: a != b}
             widths = [w for w in range(1, 65) if all(CMP[o](w, c) for o, c in conds)]
             covered.setdefault(which, set()).update(widths)
+            if only_widths is not None:
+                widths = [w for w in widths if w in only_widths]
             for mode in ("checked", "unchecked"):
                 for bits in widths:
                     cases += 1
@@ -144,12 +143,22 @@ def run(chk, ctx):
                 rows[ev[0][0]] = canon(dict(r[3])["value"])
         want = {"Z": "InputValue::Z{}"} if which == "input" else {"Z": "ExpectedValue::Z{}", "X": "ExpectedValue::X{}"}
         chk.require(rows == want, "TAB", "TAB:%s:Z-X-pass-through" % which, str(rows), "%s path maps Z/X as %s" % (which, rows))
-    for which in ("input", "expected"):
+    for which in which_list:
         miss = sorted(set(range(1, 65)) - covered.get(which, set()))
         chk.require(not miss, "FOLD", "FOLD:%s:every-width-covered" % which, "the Number paths cover all widths 1..=64", "no Number path of the %s generator handles widths %s" % (which, miss[:8]))
-    chk.floor("FOLD", "mask sites", sites, 2)
+    chk.floor("FOLD", "mask sites", sites, len(which_list))
     chk.extra["folded_cases"] = cases
-    chk.floor("FOLD", "folded (site x width x mode) cases", cases, 256)
+    chk.floor("FOLD", "folded (site x width x mode) cases", cases, 2 * len(which_list) * (64 if only_widths is None else len(only_widths)))
+
+
+def run(chk, ctx):
+    P = Prog(ctx["facts"])
+    chk.explanation = ("C07 is decided exactly, because its width dimension is finite (1..=64) and the value enters through one BitAnd: WHO (every site in the row generators that builds InputValue::Value / ExpectedValue::Value from an entry), "
+                       "ORG (the built value is payload & m in either operand order, and the width feeding m is the `bits` of the very signal stored in the entry), FOLD (the backward slice of m — a helper function or an inline term — is folded for every bits in 1..=64 "
+                       "under both overflow-check modes: no Assert fails and m == 2^bits - 1 as a 64-bit pattern, i.e. -1 for 64; since n & (2^b - 1) is reduction modulo 2^b in two's complement this decides the numeric clause for every 64-bit n), "
+                       "TAB (Z and X pass through), const (virtual signals are built with bits: 64).")
+    chk.trusted = ["rustc MIR; two's-complement identity n & (2^b - 1) == n mod 2^b"]
+    mask_rules(chk, P)
     # virtual signals are 64 bits wide
     ws = P.body(c11.WS)
     if ws is not None:
@@ -158,4 +167,4 @@ def run(chk, ctx):
                 if cb is cl:
                     f = {k: canon(v) for k, v in P.sl(cb).rvalue(st["rv"], bb, i)[3]}
                     chk.require(f.get("bits") == "64" and f.get("typ", "").startswith("SignalType::Virtual"), "ORG", "ORG:virtual-signals-are-64-bit", "Signal{bits: 64, typ: Virtual}", "virtual signal literal has bits=%s typ=%s" % (f.get("bits"), f.get("typ", "")[:40]))
-    chk.sample({"sites": sites, "widths": "1..=64", "modes": ["checked", "unchecked"], "cases": cases})
+    chk.sample({"widths": "1..=64", "modes": ["checked", "unchecked"], "cases": chk.extra.get("folded_cases")})
